@@ -37,31 +37,37 @@ Has(test, q) == test[q[1]] = q[2] /\ test[q[3]] = q[4]
 Excluded(test) == \E q \in Excl : Has(test, q)
 Accepted(test) == ~\E q \in Reject : Has(test, q)
 
-WellFormed == \A i \in DOMAIN Tests : /\ DOMAIN Tests[i] = Options
-                                      /\ \A o \in Options : Tests[i][o] \in Domain[o]
-                                      /\ ~Excluded(Tests[i])
+\* (every operator takes the suite as an argument: TLC re-evaluates the constant expression Tests at each textual
+\*  occurrence, which made the check quadratic in the number of tests)
+WellFormed(T) == \A i \in DOMAIN T : /\ DOMAIN T[i] = Options
+                                     /\ \A o \in Options : T[i][o] \in Domain[o]
+                                     /\ ~Excluded(T[i])
 PairExcluded(o1, v1, o2, v2) == <<o1, v1, o2, v2>> \in Excl \/ <<o2, v2, o1, v1>> \in Excl
 PairInfeasible(o1, v1, o2, v2) == <<o1, v1, o2, v2>> \in Infeasible \/ <<o2, v2, o1, v1>> \in Infeasible
-AcceptedTests == {i \in DOMAIN Tests : Accepted(Tests[i])}
-CoveredPairs == UNION {{<<o1, Tests[i][o1], o2, Tests[i][o2]>> : o1 \in Options, o2 \in Options} : i \in AcceptedTests}
-PairwiseComplete ==
-    LET cov == CoveredPairs IN
+AcceptedTests(T) == {i \in DOMAIN T : Accepted(T[i])}
+CoveredPairs(T) == UNION {{<<o1, T[i][o1], o2, T[i][o2]>> : o1 \in Options, o2 \in Options} : i \in AcceptedTests(T)}
+PairwiseComplete(T) ==
+    LET cov == CoveredPairs(T) IN
     \A o1, o2 \in Options : o1 # o2 =>
         \A v1 \in Domain[o1], v2 \in Domain[o2] :
             PairExcluded(o1, v1, o2, v2) \/ PairInfeasible(o1, v1, o2, v2)
             \/ <<o1, v1, o2, v2>> \in Reject \/ <<o2, v2, o1, v1>> \in Reject
             \/ <<o1, v1, o2, v2>> \in cov
-RejectCovered == \A q \in Reject : \E i \in DOMAIN Tests : Has(Tests[i], q)
+RejectCovered(T) == \A q \in Reject : \E i \in DOMAIN T : Has(T[i], q)
 CoreExcluded(f) == \E q \in Excl : q[1] \in Core /\ q[3] \in Core /\ f[q[1]] = q[2] /\ f[q[3]] = q[4]
 CoreRejected(f) == \E q \in Reject : q[1] \in Core /\ q[3] \in Core /\ f[q[1]] = q[2] /\ f[q[3]] = q[4]
-CoreProj == {[o \in Core |-> Tests[i][o]] : i \in AcceptedTests}
+CoreProj(T) == {[o \in Core |-> T[i][o]] : i \in AcceptedTests(T)}
 CoreSpaceOK == \A f \in CoreSpace : DOMAIN f = Core /\ \A o \in Core : f[o] \in Domain[o]
-CoreComplete == Core = {} \/ (CoreSpaceOK /\ LET proj == CoreProj IN \A f \in CoreSpace : CoreExcluded(f) \/ CoreRejected(f) \/ f \in proj)
+CoreComplete(T) == Core = {} \/ (CoreSpaceOK /\ LET proj == CoreProj(T) IN \A f \in CoreSpace : CoreExcluded(f) \/ CoreRejected(f) \/ f \in proj)
 
+Suite(T) == WellFormed(T) /\ PairwiseComplete(T) /\ RejectCovered(T) /\ CoreComplete(T)
+
+\* one step: judge the suite, say which tests the CLI must accept
 Init == t = 0 /\ done = FALSE
-Step == /\ t < Len(Tests) /\ t' = t + 1 /\ UNCHANGED done
-        /\ (Emit => PrintT(<<"TEST", t + 1, Accepted(Tests[t + 1])>>))
+Step == /\ t = 0 /\ t' = 1
+        /\ LET T == Tests IN
+           /\ done' = Suite(T)
+           /\ (Emit => PrintT(<<"ACCEPT", [i \in DOMAIN T |-> Accepted(T[i])]>>))
 Spec == Init /\ [][Step]_vars
-Suite == WellFormed /\ PairwiseComplete /\ RejectCovered /\ CoreComplete
-SuiteAtStart == t = 0 => Suite      \* the suite is a constant: judged once
+SuiteOK == t = 1 => done
 =============================================================================
